@@ -396,7 +396,9 @@ func (chipAuth *ChipAuth) doGeneralAuthenticate(curve *elliptic.Curve, termKeypa
 
 func deriveSessionKeys(curve *elliptic.Curve, termKeypair cryptoutils.EcKeypair, chipPubKey *cryptoutils.EcPoint, caAlgInfo *CaAlgorithmInfo) (ksEnc []byte, ksMac []byte) {
 	k := cryptoutils.DoEcDh(termKeypair.Pri, chipPubKey, *curve)
-	sharedSecret := k.X.Bytes()
+	// NB shared secret is the x-coordinate as a fixed-length (field size) octet string
+	//    - big.Int.Bytes() would drop leading zero bytes, so the derived keys would differ from the chip's
+	sharedSecret := k.X.FillBytes(make([]byte, ((*curve).Params().BitSize+7)/8))
 	ksEnc = cryptoutils.KDF(sharedSecret, cryptoutils.KDF_COUNTER_KSENC, caAlgInfo.cipherAlg, caAlgInfo.keySizeBits)
 	ksMac = cryptoutils.KDF(sharedSecret, cryptoutils.KDF_COUNTER_KSMAC, caAlgInfo.cipherAlg, caAlgInfo.keySizeBits)
 	slog.Debug("deriveSessionKeys", "sharedSecret", utils.BytesToHex(sharedSecret), "ksEnc", utils.BytesToHex(ksEnc), "ksMac", utils.BytesToHex(ksMac))
